@@ -106,7 +106,7 @@ def run_c05(rep, tier, seed):
     rng = random.Random(seed + 5)
     distinct = 0
     # exhaustive small pairs (plain graphs, default labels and uniform labels)
-    nmax = 3
+    nmax = 3 if tier == "quick" else 4  # thorough: all 1 099 labelled graphs on <= 4 atoms, about 1 M ordered pairs per class
     for kind in ("MG", "SMG"):
         refs = list(all_small(kind, nmax))
         for lab in ("default-labels", "uniform-labels"):
@@ -114,6 +114,8 @@ def run_c05(rep, tier, seed):
             for ra, rb in itertools.product(refs, repeat=2):
                 if len(ra.atoms) != len(rb.atoms):
                     continue
+                if nmax > 3 and lab == "uniform-labels" and len(ra.bonds) != len(rb.bonds):
+                    continue  # thorough tier: the second label mode on pairs with equal bond counts only (time)
                 labels = None if lab == "default-labels" else ({a: 0 for a in ra.atoms}, {a: 0 for a in rb.atoms})
                 ok, why = c05_case(ra, rb, labels, kind == "SMG", False)
                 grp.case(ok, f"{why}: {ra.describe()} vs {rb.describe()}", c05_body(ra, rb, labels, kind == "SMG", False))
